@@ -54,4 +54,5 @@ def remove_redundant_acquaintance_opportunities(strategy: cirq.Circuit) -> int:
                 new_moment.append(op)
         new_moments.append(circuits.Moment(new_moment))
     strategy._moments = new_moments
+    strategy._mutated()
     return n_removed
